@@ -10,25 +10,42 @@
 #include "vp_harness.h"
 #include "c20.h"
 
-extern "C" void h_idfeat_ref()
+// the IQ base classes (QXmppStanza/QXmppIq) play no role in verificationString(): only the private data block is built
+static QXmppDiscoveryIq *rawIq(VpRaw<QXmppDiscoveryIq> &raw)
 {
-    VpRaw<QXmppDiscoveryIq> iq;
-    new (&iq->d) QSharedDataPointer<QXmppDiscoveryIqPrivate>(new QXmppDiscoveryIqPrivate);
-    Sym ids[NID][4];
-    unsigned nid = symCount(NID, C_NID);
+    new (&raw->d) QSharedDataPointer<QXmppDiscoveryIqPrivate>(new QXmppDiscoveryIqPrivate);
+    return raw.p();
+}
+static void setIdentities(QXmppDiscoveryIq *iq, const IdT ids[], unsigned nid)
+{
     QList<QXmppDiscoveryIq::Identity> il;
     for (unsigned i = 0; i < NID; i++) if (i < nid) {
         QXmppDiscoveryIq::Identity id;
-        for (int k = 0; k < 4; k++) ids[i][k].make();
-        id.setCategory(ids[i][0].q); id.setType(ids[i][1].q); id.setLanguage(ids[i][2].q); id.setName(ids[i][3].q);
+        id.setCategory(qstr(ids[i].f[0])); id.setType(qstr(ids[i].f[1])); id.setLanguage(qstr(ids[i].f[2])); id.setName(qstr(ids[i].f[3]));
         il.append(id);
     }
     iq->setIdentities(il);
-    Sym fs[NFEAT];
-    unsigned nf = symCount(NFEAT, C_NF);
+}
+static void setFeatures(QXmppDiscoveryIq *iq, const Txt fs[], unsigned nf)
+{
     QStringList fl;
-    for (unsigned i = 0; i < NFEAT; i++) if (i < nf) { fs[i].make(); fl.append(fs[i].q); }
+    for (unsigned i = 0; i < NFEAT; i++) if (i < nf) fl.append(qstr(fs[i]));
     iq->setFeatures(fl);
+}
+static void symIdentities(IdT ids[], unsigned nid)
+{
+    for (unsigned i = 0; i < NID; i++) { ids[i].f[0] = symTxt(); ids[i].f[1] = symTxt(); ids[i].f[2] = symTxt(); ids[i].f[3] = symTxt(); }
+}
+static void symFeatures(Txt fs[]) { for (unsigned i = 0; i < NFEAT; i++) fs[i] = symTxt(); }
+
+// (ii) the hashed string is the XEP-0115 5.1 string of the same identities and features
+extern "C" void h_idfeat_ref()
+{
+    VpRaw<QXmppDiscoveryIq> raw; QXmppDiscoveryIq *iq = rawIq(raw);
+    IdT ids[NID]; Txt fs[NFEAT];
+    unsigned nid = symCount(NID, C_NID), nf = symCount(NFEAT, C_NF);
+    symIdentities(ids, nid); symFeatures(fs);
+    setIdentities(iq, ids, nid); setFeatures(iq, fs, nf);
 
     QByteArray ver = iq->verificationString();
 
@@ -37,3 +54,26 @@ extern "C" void h_idfeat_ref()
     ref_features(r, fs, nf);
     check_against_oracle(r, ver);
 }
+#ifdef C20_PROBE
+extern "C" void h_probe()
+{
+    Txt a = symTxt(), b = symTxt();
+    QString qa = qstr(a), qb = qstr(b);
+    QStringList l; l.append(qa); l.append(qb);
+#if C20_PROBE == 2
+    l.append(qstr(symTxt()));
+#endif
+#if C20_PROBE == 1 || C20_PROBE == 3
+    if (vp_bool()) l.swapItemsAt(0, 1);
+#else
+    std::sort(l.begin(), l.end());
+#endif
+#if C20_PROBE == 3
+    QString S; S += l.at(0) + u'/' + l.at(1) + u'<'; S += l.at(1) + u'<'; S += l.at(0) + u'<';
+    vp_assert(S.size() >= 4, "C20 probe");
+#else
+    bool lt = l.at(0) < l.at(1);
+    vp_assert(lt || !lt, "C20 probe");
+#endif
+}
+#endif
